@@ -26,6 +26,14 @@ structure Quirks where
   dimacsSingleClause : Bool := false
   /-- `to_bqm`: `_ret = <symbol>` takes the `AndConst` branch -/
   retSymbolAndConst : Bool := false
+  /-- QASM exporter: gate formals are `qubit_map.keys()` (one per name, insertion order) -/
+  qasmFormalsFromKeys : Bool := false
+  /-- QASM exporter: parameters printed with `{p:.2f}` -/
+  qasmParam2f : Bool := false
+  /-- qiskit/QASM exporters: `if p:` drops a parameter that is 0 -/
+  exportParamTruthy : Bool := false
+  /-- cirq exporter raises on `Barrier` / `NopGate` -/
+  cirqNopRaises : Bool := false
   deriving Repr, DecidableEq, Inhabited
 
 def Quirks.none : Quirks := {}
@@ -39,6 +47,10 @@ def Quirks.ofList (l : List String) : Quirks :=
     repeatZero := l.contains "repeatZero"
     identityGateRaises := l.contains "identityGateRaises"
     dimacsSingleClause := l.contains "dimacsSingleClause"
-    retSymbolAndConst := l.contains "retSymbolAndConst" }
+    retSymbolAndConst := l.contains "retSymbolAndConst"
+    qasmFormalsFromKeys := l.contains "qasmFormalsFromKeys"
+    qasmParam2f := l.contains "qasmParam2f"
+    exportParamTruthy := l.contains "exportParamTruthy"
+    cirqNopRaises := l.contains "cirqNopRaises" }
 
 end QV
